@@ -8,8 +8,9 @@
    Proxy-Authorization and is delivered to the origin server) and holds there for exactly the histories that contain
    no such request (C24_sound_partial; wsafe is the computable complement of the finding).
 
-   wrun cfg ws_init es = the heads written while processing the history es of events (clients connecting in any of
-   the modes, requests in any form, CONNECTs followed by plain HTTP or TLS, upstream proxy accepting or refusing,
+   wrun cfg ws_init es = the heads written while processing the history es of events (the option upstream_auth being
+   set, unset or changed at run time -- WConfigure, the configure hook -- at any point, clients connecting in any of
+   the modes and disconnecting, requests in any form, CONNECTs followed by plain HTTP or TLS, upstream proxy accepting or refusing,
    servers closing connections) on any number of client connections that share one addon instance.
    carries cred fs = some header field of the head has the value cred;  wevent_clean = the client did not send it;
    good w = w went to the upstream proxy itself (w_via), outside any CONNECT tunnel, for an upstream-mode client,
@@ -18,14 +19,16 @@ From Coq Require Import List Bool NArith.
 From MV Require Import Base.Bytes Model.UpstreamAuth Proofs.UpstreamAuthStep Proofs.UpstreamAuthWorld Proofs.UpstreamAuthSent.
 Import ListNotations.
 
+(* For EVERY header value cred that no client sent -- in particular every credential configured at any time of the
+   history, whatever the option was when a CONNECT was accepted. *)
 Theorem C24_sound : forall cfg cred es,
-  cfg.(c_fixed) = true -> cfg.(c_auth) = Some cred -> Forall (wevent_clean cred) es ->
+  cfg.(c_fixed) = true -> Forall (wevent_clean cred) es ->
   forall c w, In (c, w) (snd (wrun cfg ws_init es)) -> carries cred w.(w_fields) -> good w.
 Proof. exact sound_fixed. Qed.
 Print Assumptions C24_sound.
 
 Theorem C24_sound_refuted : exists cfg cred es c w,
-  cfg.(c_fixed) = false /\ cfg.(c_auth) = Some cred /\ Forall (wevent_clean cred) es
+  cfg.(c_fixed) = false /\ (fst (wrun cfg ws_init es)).(ws_auth) = Some cred /\ Forall (wevent_clean cred) es
   /\ In (c, w) (snd (wrun cfg ws_init es)) /\ carries cred w.(w_fields)
   /\ w.(w_via) = true /\ w.(w_tunnelled) = true /\ w.(w_kind) = WRequest.
 Proof. exact refuted. Qed.
@@ -33,7 +36,7 @@ Print Assumptions C24_sound_refuted.
 
 (* any value of c_fixed, in particular the code as found *)
 Theorem C24_sound_partial : forall cfg cred es,
-  cfg.(c_auth) = Some cred -> Forall (wevent_clean cred) es -> wsafe cfg ws_init es = true ->
+  Forall (wevent_clean cred) es -> wsafe cfg ws_init es = true ->
   forall c w, In (c, w) (snd (wrun cfg ws_init es)) -> carries cred w.(w_fields) -> good w.
 Proof. exact sound_partial. Qed.
 Print Assumptions C24_sound_partial.
@@ -47,12 +50,23 @@ Theorem C24_good_not_tunnelled : forall w, good w -> w.(w_via) && w.(w_tunnelled
 Proof. exact good_not_tunnelled. Qed.
 Print Assumptions C24_good_not_tunnelled.
 
+(* Round 2: nothing written into a CONNECT tunnel carries a credential, whatever the option value was when the
+   client's CONNECT was accepted and however it changed afterwards. *)
+Theorem C24_tunnel_never : forall cfg cred es,
+  cfg.(c_fixed) = true -> Forall (wevent_clean cred) es ->
+  forall c w, In (c, w) (snd (wrun cfg ws_init es)) -> w.(w_via) = true -> w.(w_tunnelled) = true ->
+  ~ carries cred w.(w_fields).
+Proof. exact tunnel_never. Qed.
+Print Assumptions C24_tunnel_never.
+
 (* The other direction of the statement (the credential IS sent where it belongs), repaired code and code as found:
-   every CONNECT head written to the upstream proxy carries it; so does every request head written to the proxy
-   outside a tunnel, and every request head written for a reverse-mode client. *)
-Theorem C24_sent_where_due : forall cfg cred es,
-  cfg.(c_auth) = Some cred -> cred <> [] ->
-  forall c w, In (c, w) (snd (wrun cfg ws_init es)) ->
+   after any history, if upstream_auth is now configured with value cred, the next event writes cred into every CONNECT
+   head sent to the upstream proxy, every request head sent to the proxy outside a tunnel, and every request head of a
+   reverse-mode client. *)
+Theorem C24_sent_where_due : forall cfg cred es e,
+  let ws := fst (wrun cfg ws_init es) in
+  ws.(ws_auth) = Some cred -> cred <> [] ->
+  forall c w, In (c, w) (snd (wstep cfg ws e)) ->
   w.(w_kind) = WConnect \/ (w.(w_via) = true /\ w.(w_tunnelled) = false) \/ is_reverse w.(w_pm) = true ->
   carries cred w.(w_fields).
 Proof. exact sent_where_due. Qed.
@@ -64,14 +78,18 @@ Theorem C24_credential_shape : forall s v, parse_upstream_auth s = POk v ->
 Proof. exact parse_shape. Qed.
 Print Assumptions C24_credential_shape.
 
-(* Non-vacuity: upstream mode, a plain request, CONNECT e.com:80 (TLS-less tunnel), a plain request through the tunnel.
-   Repaired code: three heads are written; the first two (to the proxy) carry the credential, the tunnelled one does not.
-   The same history is outside the guard of C24_sound_partial for the code as found. *)
+(* Non-vacuity. history0: upstream_auth set, upstream mode, a plain request, CONNECT e.com:80 (TLS-less tunnel), a plain
+   request through the tunnel: three heads, the first two (to the proxy) carry the credential, the tunnelled one does not.
+   history1: the CONNECT is accepted while upstream_auth is unset, the option is set afterwards, then a request in the
+   tunnel: the CONNECT mitmproxy sends to the proxy carries the credential, the tunnelled request does not.
+   history0 is outside the guard of C24_sound_partial for the code as found. *)
 Theorem C24_nonvacuous :
-  let wr := snd (wrun (cfg0 true) ws_init history0) in
-  (cfg0 true).(c_auth) = Some cred0 /\ Forall (wevent_clean cred0) history0
-  /\ map (fun cw => (w_kind (snd cw), w_tunnelled (snd cw), carriesb cred0 (w_fields (snd cw)))) wr
-     = [(WRequest, false, true); (WConnect, false, true); (WRequest, true, false)]
+  let obs := fun cfg h => map (fun cw => (w_kind (snd cw), w_tunnelled (snd cw), carriesb cred0 (w_fields (snd cw))))
+                              (snd (wrun cfg ws_init h)) in
+  (fst (wrun (cfg0 true) ws_init history0)).(ws_auth) = Some cred0
+  /\ Forall (wevent_clean cred0) history0 /\ Forall (wevent_clean cred0) history1
+  /\ obs (cfg0 true) history0 = [(WRequest, false, true); (WConnect, false, true); (WRequest, true, false)]
+  /\ obs (cfg0 true) history1 = [(WConnect, false, true); (WRequest, true, false)]
   /\ wsafe (cfg0 false) ws_init history0 = false.
 Proof. exact nonvacuous. Qed.
 Print Assumptions C24_nonvacuous.
